@@ -164,6 +164,12 @@ def build_scfg(named: Dict[str, List[str]], mk: Optional[Callable[[str, tuple], 
     return SCFG(graph=blocks)
 
 
+def _entry_of(H: Dict[str, Any]) -> str:
+    tg = {t for r in H.values() for t in r["jt"]}
+    ent = [n for n in H if n not in tg]
+    return ent[0] if len(ent) == 1 else ""
+
+
 def record_restructure(
     scfg: SCFG,
     ident: Any,
@@ -182,6 +188,7 @@ def record_restructure(
         "origk": {n: r["k"] for n, r in st0["H"].items()},
         "origpay": {n: r.get("pay", []) for n, r in st0["H"].items()},
         "init": st0["H"],
+        "entry": _entry_of(st0["H"]),
         "events": [],
         "stages": {},
         "hook": {},
